@@ -26,6 +26,24 @@ def _directory(ctx) -> asset.Directory:
     return asset.Directory(ctx['registry'])  # a fresh directory (fresh level objects) per action, shared caches
 
 
+def _runner(instance, seed: int = 0):
+    """The Dask runner under the scheduler chosen for this incarnation ($LC_SCHEDULER): synchronous, or the real
+    threads / processes schedulers on the simulated pool (processes = every task and result really cloudpickled)."""
+    mode = os.environ.get('LC_SCHEDULER', 'synchronous')
+    if mode == 'synchronous':
+        return daskrun.Runner(instance, lc.Feed(), lc.Sink(), scheduler='synchronous')
+    import random  # pylint: disable=import-outside-toplevel
+
+    import dask.local  # pylint: disable=import-outside-toplevel
+
+    from workloads import tables  # pylint: disable=import-outside-toplevel
+
+    pool = tables.SimPool(3, random.Random(seed), {})
+    tables.SimQueue.pool = pool
+    dask.local.Queue = tables.SimQueue
+    return daskrun.Runner(instance, lc.Feed(), lc.Sink(), scheduler=mode, pool=pool, num_workers=3)
+
+
 def _drain() -> list:
     path = os.environ.get('LC_LOG')
     if not path or not os.path.exists(path):
@@ -50,7 +68,7 @@ def train(ctx, project, release, token):
     os.environ['LC_TOKEN'] = str(token)
     _drain()
     instance = _instance(ctx, project, release, None)
-    daskrun.Runner(instance, lc.Feed(), lc.Sink(), scheduler='synchronous').train()
+    _runner(instance, token).train()
     fresh = _instance(ctx, project, release, None)
     return {'log': _drain(), 'generation': int(fresh._generation.key), 'nstates': len(fresh.tag.states)}  # pylint: disable=protected-access
 
@@ -59,7 +77,7 @@ def apply(ctx, project, release, generation, token=0):
     os.environ['LC_TOKEN'] = str(token)
     _drain()
     instance = _instance(ctx, project, release, generation)
-    daskrun.Runner(instance, lc.Feed(), lc.Sink(), scheduler='synchronous').apply()
+    _runner(instance, token).apply()
     generation = int(instance._generation.key)  # pylint: disable=protected-access
     return {'log': _drain(), 'generation': generation, 'nstates': len(instance.tag.states)}
 
@@ -68,7 +86,7 @@ def perftrack(ctx, project, release, generation, token=0):
     os.environ['LC_TOKEN'] = str(token)
     _drain()
     instance = _instance(ctx, project, release, generation)
-    daskrun.Runner(instance, lc.Feed(), lc.Sink(), scheduler='synchronous').eval_perftrack()
+    _runner(instance, token).eval_perftrack()
     generation = int(instance._generation.key)  # pylint: disable=protected-access
     return {'log': _drain(), 'generation': generation, 'nstates': len(instance.tag.states)}
 
